@@ -397,6 +397,9 @@ fn ttlcrash_run(report: &mut Report, seed: u64, rid: u64, dir: &str) -> Option<(
             };
             let revents = rmon.take_events();
             hub().unwatch(&rmon);
+            if let Err(p) = crashimg::journal_discipline(&revents, &[]) {
+                return Some(("ttlcrash:journal-discipline".to_string(), format!("during recovery's repair writes: {p}")));
+            }
             let d1 = storeutil::dump(&first);
             let mut state1 = Vec::new();
             for (i, k) in keys.iter().enumerate() {
@@ -601,6 +604,11 @@ fn bigretire_run(report: &mut Report, seed: u64, rid: u64, dir: &str) -> Option<
     };
     let revents = rmon.take_events();
     hub().unwatch(&rmon);
+    // several journal cycles inside one open (one per chunk of repairs): slots must alternate, generations rise
+    match crashimg::journal_discipline(&revents, &[]) {
+        Ok(n) => report.count("recovery_journal_writes_checked", n),
+        Err(p) => return Some(("bigretire:journal-discipline".to_string(), format!("during recovery's chunked repair: {p}"))),
+    }
     let present_first: Vec<Vec<u8>> = (0..n).map(|i| format!("a-{i:05}").into_bytes()).filter(|k| first.get(k).is_ok()).collect();
     let live_first = first.len();
     drop(first);
